@@ -2,7 +2,7 @@
 from common import *
 
 RULE = ("every statement form the property lists, with every option subset: CREATE TYPE [s.]n AS ENUM (1-5 values) | AS OBJECT "
-        "(1-4 attributes) | AS TABLE (1-4 columns); CREATE DOMAIN [s.]n AS type(n); CREATE SCHEMA [IF NOT EXISTS] n "
+        "(1-4 attributes) | AS TABLE (1-4 columns); CREATE DOMAIN [s.]n AS type(n) | AS ENUM (values) in any letter case; scripts of 2-5 such statements; CREATE SCHEMA [IF NOT EXISTS] n "
         "[AUTHORIZATION u] [COMMENT='c']; CREATE DATABASE n; CREATE [BIGFILE|SMALLFILE] [TEMPORARY] TABLESPACE n — keywords in "
         "random letter case, names plain / mixed case / keyword-like (comment, sequence, key, type, order ...); expected entity "
         "built from the statement's parts; a following table that uses the type as a column type must report the (possibly "
@@ -54,6 +54,12 @@ def run(ctx, res):
             exp = {"schema": schema, "type_name": name, "properties": {"columns": ec}, "base_type": None}
             cases.append(("type_table", ddl, exp, None))
         elif k == 3:
+            if rng.random() < 0.4:
+                vals = ["'%s'" % rng.choice(["a", "b c", "x;y", "V1"]) for _ in range(rng.randint(1, 4))]
+                en = kwc(rng, "ENUM")
+                ddl = "%s %s %s %s %s (%s);" % (kwc(rng, "CREATE"), kwc(rng, "DOMAIN"), qn, kwc(rng, "AS"), en, ", ".join(vals))
+                cases.append(("domain_enum", ddl, {"schema": schema, "domain_name": name, "base_type": en, "properties": {"values": vals}}, None))
+                continue
             ty = rng.choice(["CHAR", "varchar", "numeric"])
             ddl = "%s %s %s %s %s(%d);" % (kwc(rng, "CREATE"), kwc(rng, "DOMAIN"), qn, kwc(rng, "AS"), ty, rng.randrange(1, 99))
             cases.append(("domain", ddl, {"schema": schema, "domain_name": name, "base_type": ty, "properties": {}}, None))
@@ -97,6 +103,22 @@ def run(ctx, res):
                 e["base_type"] = bt            # the base type word is reported as written
         if got != [e]:
             res.violation("input", "%s: entity differs from the statement's parts: got %r" % (kind, got), ddl=ddl, expected=[e], oracle="entity")
+        else:
+            res.nontrivial.add(ddl)
+    # ---- several of these statements in ONE script: one entity each, in order, none influenced by its neighbours ------------------
+    good = [(c, py_of_impl(r["ok"])) for c, r in zip(cases, R) if "ok" in r and len(py_of_impl(r["ok"])) == 1]
+    scripts = []
+    for i in range(150 if ctx.thorough else 40):
+        pick = [rng.choice(good) for _ in range(rng.randint(2, 5))]
+        scripts.append(("\n".join(c[0][1] for c in pick), [c[1][0] for c in pick], [c[0][0] for c in pick]))
+    R3 = ctx.impl.map([{"op": "run", "ddl": s_[0]} for s_ in scripts])
+    res.evaluations += len(scripts)
+    for (ddl, exp, kinds), r in zip(scripts, R3):
+        res.count("script_of_entities")
+        got = py_of_impl(r["ok"]) if "ok" in r else ("raise", r.get("raise"))
+        if got != exp:
+            res.violation("input", "a script of %s statements is not reported as one entity each, in order: got %r" % ("/".join(kinds), got),
+                          ddl=ddl, expected=exp, oracle="entity_script")
         else:
             res.nontrivial.add(ddl)
     # ---- a table using the type as a column type -----------------------------------------------------------------------------
